@@ -724,9 +724,15 @@ func (database *ChainDatabase) GetCandidatesTop(hash common.Hash) []*Candidate {
 
 	if hash == database.LastConfirm.Block.Hash() {
 		return database.LastConfirm.Top.GetTop()
-	} else {
-		panic("hash != database.LastConfirm.Block.Hash()")
 	}
+
+	// A reader (the RPC GetCandidateTop30) loads the stable block first and asks for its candidates after. If
+	// the stable block changed in between, the hash is an older stable block now. Its own ranking is not kept,
+	// so answer with the ranking of the newest stable block, like GetActDatabase does
+	if isStable, err := UtilsHashBlock(database.Beansdb, hash); err == nil && isStable {
+		return database.LastConfirm.Top.GetTop()
+	}
+	panic("hash != database.LastConfirm.Block.Hash()")
 }
 
 func (database *ChainDatabase) GetCandidatesPage(index int, size int) ([]common.Address, uint32, error) {
